@@ -15,6 +15,10 @@ package core
 //     the API reports success; same oracle.
 
 import (
+	"crypto/ecdsa"
+	"crypto/elliptic"
+	crand "crypto/rand"
+	"crypto/x509/pkix"
 	"crypto/x509"
 	"encoding/base64"
 	"encoding/pem"
@@ -47,6 +51,7 @@ type c16World struct {
 	autoRebuild bool
 	delta       bool // enable_delta (needs auto_rebuild)
 	reimports   int  // how often issuer i2 was deleted and imported again (new issuer id each time)
+	colliders   int  // imported foreign CAs whose own serial equals that of a leaf issued here
 	deltaRotatedSinceRevoke bool
 	rotatedSinceRevoke bool
 	lastCRLNum  map[string]*big.Int
@@ -331,7 +336,7 @@ type c16Op struct {
 func (o c16Op) String() string { return fmt.Sprintf("%s(%d)", o.Kind, o.Arg) }
 
 func c16Alphabet(ncerts int) []c16Op {
-	out := []c16Op{{"issue", 1}, {"issue", 2}, {"rotate", 0}, {"tidy", 0}, {"auto-rebuild", 1}, {"auto-rebuild", 0}, {"delete-issuer2", 0}, {"restart", 0}, {"reimport-issuer2", 0}, {"delta", 1}, {"delta", 0}, {"rotate-delta", 0}}
+	out := []c16Op{{"issue", 1}, {"issue", 2}, {"rotate", 0}, {"tidy", 0}, {"auto-rebuild", 1}, {"auto-rebuild", 0}, {"delete-issuer2", 0}, {"restart", 0}, {"reimport-issuer2", 0}, {"delta", 1}, {"delta", 0}, {"rotate-delta", 0}, {"import-colliding-ca", 0}}
 	for i := 0; i < ncerts; i++ {
 		out = append(out, c16Op{"revoke", i})
 	}
@@ -349,6 +354,11 @@ func (w *c16World) apply(t *testing.T, op c16Op) (string, string) {
 	case "revoke":
 		c := w.certs[op.Arg]
 		ok, txt := w.revoke(op.Arg)
+		if !ok && op.Arg == 0 && w.colliders > 0 {
+			// the engine refuses to revoke by a serial number that is also an imported issuer's
+			// own ("adding issuer to its own CRL is not allowed"): a refusal imposes nothing
+			break
+		}
 		if !ok {
 			return "revoke-failed", fmt.Sprintf("revoke(%s) failed: %s", c.serial, txt)
 		}
@@ -457,6 +467,27 @@ func (w *c16World) apply(t *testing.T, op c16Op) (string, string) {
 			return "rotate-failed", txt
 		}
 		w.rotatedSinceRevoke = true
+	case "import-colliding-ca":
+		// a foreign CA whose own certificate carries the serial number of the first leaf issued
+		// here is imported as a further issuer (serial numbers are only unique per issuer); a
+		// rotate is part of the step. The leaf's revocation must stay on its issuer's CRL.
+		if len(w.certs) == 0 || w.colliders > 0 {
+			break
+		}
+		bundle, berr := c16CollidingCA(w.certs[0].cert.SerialNumber)
+		if berr != nil {
+			t.Fatalf("harness: %v", berr)
+		}
+		resp, err := w.s.Req(w.s.Root, logical.UpdateOperation, "pki/issuers/import/bundle", map[string]interface{}{"pem_bundle": bundle})
+		if !OK(resp, err) {
+			// a refusal is the engine's right; nothing else changes
+			break
+		}
+		w.colliders++
+		if ok, txt := w.rotate(); !ok {
+			return "rotate-failed", txt
+		}
+		w.rotatedSinceRevoke = true
 	case "restart":
 		img2 := w.s.Image()
 		w.s.Close()
@@ -475,7 +506,30 @@ func (w *c16World) canon() string {
 		parts = append(parts, fmt.Sprintf("%s:%v", c.issuer, c.revoked))
 	}
 	sort.Strings(parts)
-	return fmt.Sprintf("%v auto=%v rot=%v gone=%v delta=%v drot=%v reimports=%d", parts, w.autoRebuild, w.rotatedSinceRevoke, w.issuerGone["i2"], w.delta, w.deltaRotatedSinceRevoke, w.reimports)
+	return fmt.Sprintf("%v auto=%v rot=%v gone=%v delta=%v drot=%v reimports=%d", parts, w.autoRebuild, w.rotatedSinceRevoke, w.issuerGone["i2"], w.delta, w.deltaRotatedSinceRevoke, w.reimports) + fmt.Sprintf(" colliders=%d", w.colliders)
+}
+
+// c16CollidingCA builds a self-signed EC CA certificate with the given serial number and
+// returns certificate + key as a PEM bundle.
+func c16CollidingCA(serial *big.Int) (string, error) {
+	key, err := ecdsa.GenerateKey(elliptic.P256(), crand.Reader)
+	if err != nil {
+		return "", err
+	}
+	tmpl := &x509.Certificate{
+		SerialNumber: new(big.Int).Set(serial), Subject: pkix.Name{CommonName: "foreign ca with a colliding serial"},
+		NotBefore: time.Now().Add(-time.Hour), NotAfter: time.Now().Add(240 * time.Hour),
+		IsCA: true, BasicConstraintsValid: true, KeyUsage: x509.KeyUsageCertSign | x509.KeyUsageCRLSign,
+	}
+	der, err := x509.CreateCertificate(crand.Reader, tmpl, tmpl, &key.PublicKey, key)
+	if err != nil {
+		return "", err
+	}
+	kb, err := x509.MarshalECPrivateKey(key)
+	if err != nil {
+		return "", err
+	}
+	return string(pem.EncodeToMemory(&pem.Block{Type: "CERTIFICATE", Bytes: der})) + string(pem.EncodeToMemory(&pem.Block{Type: "EC PRIVATE KEY", Bytes: kb})), nil
 }
 
 func c16Replay(t *testing.T, img *Image, hist []c16Op, res *vout.Result) (*c16World, string, string) {
